@@ -282,6 +282,9 @@ func (r FileReplacer) replace(d data.Data, cl Changelog) (_ *ast.File, replaced 
 // which is written against that text, would not find "a * (b + c)" there.
 //
 // Code that was parsed has these parentheses already.
+//
+// Likewise a list of type arguments of which an elision left a single one,
+// "f[T]", becomes the node the parser has for it.
 func parenthesize(f *ast.File) {
 	paren := func(x ast.Expr) ast.Expr {
 		return &ast.ParenExpr{Lparen: x.Pos(), X: x, Rparen: x.End()}
@@ -319,6 +322,11 @@ func parenthesize(f *ast.File) {
 			n.X = operand(n.X)
 		case *ast.IndexListExpr:
 			n.X = operand(n.X)
+			// What is left of a list of type arguments may be a single
+			// one: "f[..., T]". The parser has another node for that.
+			if len(n.Indices) == 1 {
+				c.Replace(&ast.IndexExpr{X: n.X, Lbrack: n.Lbrack, Index: n.Indices[0], Rbrack: n.Rbrack})
+			}
 		case *ast.SliceExpr:
 			n.X = operand(n.X)
 		case *ast.TypeAssertExpr:
